@@ -579,17 +579,26 @@ pub fn run_lines(lines: &[String], oracles: bool) -> RunResult {
                         }
                         let local = if mode == "keep" { local } else { LocalSpans::default() };
                         sys.recv = Some(if cold.is_some() {
-                            // no host installed yet; the fresh descriptions are interned in ascending id
-                            // order first (a map's iteration order would make the numbering of the
-                            // metadata objects differ from run to run)
-                            dispatcher::with_default(&Dispatch::new(crate::hosts::NoHostYet), || {
-                                let mut warm = TracingEventReceiver::default();
-                                for (id, site) in &sys.spec.known {
-                                    let _ = warm.try_receive(tracing_tunnel::TracingEvent::NewCallSite { id: *id, data: site.to_real_owned() });
-                                }
-                                drop(warm);
-                                TracingEventReceiver::new(pm, ps, local)
-                            })
+                            // no host installed yet. The receiver interns the fresh descriptions in its map's
+                            // iteration order; the harness numbers the new metadata objects afterwards in
+                            // ascending order of the (smallest) call-site id they stand for, as the driver does
+                            let sink = crate::hosts::NoHostYet::default();
+                            let r = dispatcher::with_default(&Dispatch::new(sink.clone()), || TracingEventReceiver::new(pm, ps, local));
+                            let mut fresh: Vec<(u64, &'static tracing_core::Metadata<'static>)> = sink
+                                .seen
+                                .lock()
+                                .unwrap()
+                                .iter()
+                                .map(|m| {
+                                    let site = Site::from_metadata(m);
+                                    (sys.spec.known.iter().find(|(_, s)| **s == site).map_or(u64::MAX, |(id, _)| *id), *m)
+                                })
+                                .collect();
+                            fresh.sort_by_key(|e| e.0);
+                            for (_, m) in fresh {
+                                let _ = crate::hosts::meta_index(m);
+                            }
+                            r
                         } else {
                             dispatcher::with_default(&sys.dispatch, || TracingEventReceiver::new(pm, ps, local))
                         });
